@@ -69,6 +69,17 @@ def build_repo_bins():
         log(p.stdout[-4000:])
         raise ToolError("repository build failed")
 
+def build_repo_bins_release():
+    """... and the agent as it is shipped: the release profile of the workspace (a profile can change what a panic does,
+    what an overflow does, what is compiled in).  Slow the first time; thorough tier only."""
+    cmd = ["cargo", "build", "--offline", "--quiet", "--release", "--manifest-path", os.path.join(REPO, "Cargo.toml"),
+           "--target-dir", os.path.join(HARNESS, "target-repo"), "-p", "bgpfu-junos-agent"]
+    p = subprocess.run(cmd, cwd=REPO, env=cargo_env(), stdout=subprocess.PIPE, stderr=subprocess.STDOUT, text=True)
+    if p.returncode != 0:
+        log(p.stdout[-4000:])
+        raise ToolError("repository release build failed")
+    return os.path.join(HARNESS, "target-repo", "release", "bgpfu-junos-agent")
+
 CLI_SHIM = "/usr/sbin/cli"
 CLI_SHIM_TEXT = """#!/bin/sh
 # bgpfu-rs verification shim (installed by /verif/bin/setup): stands in for the Junos `cli` binary that
